@@ -35,12 +35,16 @@ def make_batches(sc):
     return out
 
 
-def build(spec, stream, start):
+def build(spec, stream, start, example_rows=0):
     import pandas as pd
     from streamz.dataframe import DataFrame
     from streamz.dataframe import aggregations as agg
     example = pd.DataFrame({'x': pd.Series([], dtype='float64'), 'name': pd.Series([], dtype='object')})
     example.index = pd.to_datetime([])
+    if example_rows:
+        # the usual way to declare a streaming dataframe: a few representative rows
+        example = pd.DataFrame({'x': [1.0, 2.0, 3.0][:example_rows], 'name': pd.Series(['a', 'b', 'a'][:example_rows], dtype='object')})
+        example.index = pd.to_datetime([1_700_000_000 + i for i in range(example_rows)], unit="s")   # (later than any data: time-indexed aggregations need a monotonic index when the example is pushed through the start state)
     sdf = DataFrame(stream, example=example)
     k = spec['kind']
     op = spec.get('op')
@@ -75,11 +79,11 @@ def build(spec, stream, start):
     raise ValueError(k)
 
 
-def run_pipeline(spec, batches, start):
+def run_pipeline(spec, batches, start, example_rows=0, snapshot=True):
     """-> list of (state snapshot, result) per batch"""
     from streamz import Stream
     stream = Stream()
-    out, with_state = build(spec, stream, start)
+    out, with_state = build(spec, stream, start, example_rows)
     L = out.stream.sink_to_list()
     res = []
     for df in batches:
@@ -94,7 +98,7 @@ def run_pipeline(spec, batches, start):
             state, result = v
         else:
             state = result = v
-        res.append((copy.deepcopy(state), copy.deepcopy(result)))
+        res.append((copy.deepcopy(state) if snapshot else state, copy.deepcopy(result)))
     import streamz.sinks
     streamz.sinks._global_sinks.clear()
     return res
@@ -148,14 +152,18 @@ def evaluate(prop, sc, want_trace=False):
     spec = sc['agg']
     batches = make_batches(sc)
     V = []
+    ex_rows = sc.get('example_rows', 0)
+    by_ref = sc.get('by_reference', False)
     try:
-        base = run_pipeline(spec, batches, None)
+        # by_reference: the emitted state objects are kept as they are (a sink_to_list), the
+        # uninterrupted run goes on, and the restart uses them afterwards
+        base = run_pipeline(spec, batches, None, ex_rows, snapshot=not by_ref)
     except Exception as e:     # noqa
         # the uninterrupted run itself failing is not this property's business
         out.status = 'base_failed:%s' % type(e).__name__
         out.signature = repr(spec) + out.status
         return out
-    out.signature = repr((spec, [len(b['x']) for b in sc['batches']]))
+    out.signature = repr((spec, [len(b['x']) for b in sc['batches']], ex_rows, by_ref))
     n = len(batches)
     runs = 0
     cuts = sc.get('cuts')
@@ -171,7 +179,7 @@ def evaluate(prop, sc, want_trace=False):
                 results = base[pos:k]
             else:
                 try:
-                    results = run_pipeline(spec, seg, copy.deepcopy(state))
+                    results = run_pipeline(spec, seg, state if by_ref else copy.deepcopy(state), ex_rows, snapshot=not by_ref)
                     runs += 1
                 except Exception as e:     # noqa
                     V.append(Violation('C12', 'C12.resume_raised', 0,
@@ -218,6 +226,10 @@ def evaluate(prop, sc, want_trace=False):
     if any(v is None for b in sc['batches'] for v in b['x']):
         out.probes['nan'] = 1
     out.probes['agg:' + spec['kind']] = 1
+    if ex_rows:
+        out.probes['non_empty_example'] = 1
+    if by_ref:
+        out.probes['state_kept_by_reference'] = 1
     out.events = runs
     return out
 
@@ -269,7 +281,8 @@ def generate(prop, rng, seed, index, tier):
             b = rng.randrange(a + 1, nb)
             chains.append([a, b])
     return {'format': 1, 'family': 'aggstate', 'property': 'C12', 'seed': seed, 'index': index,
-            'agg': spec, 'batches': batches, 'chains': chains}
+            'agg': spec, 'batches': batches, 'chains': chains,
+            'example_rows': rng.choice([0, 0, 1, 2, 3]), 'by_reference': rng.random() < 0.3}
 
 
 def shrink_candidates(sc):
@@ -278,6 +291,14 @@ def shrink_candidates(sc):
     if sc.get('chains'):
         c = clone()
         c['chains'] = []
+        yield c
+    if sc.get('example_rows'):
+        c = clone()
+        c['example_rows'] = 0
+        yield c
+    if sc.get('by_reference'):
+        c = clone()
+        c['by_reference'] = False
         yield c
     nb = len(sc['batches'])
     for i in range(nb - 1, -1, -1):
